@@ -821,6 +821,25 @@ theorem checker_iflet_decided (sig : Sig) (cx : Cx) (hcx : CxOk sig cx) (hinh : 
   obtain ⟨n, u, h1, h2⟩ := checker_iflet_exact_src sig cx hcx hinh src t hwf
   exact ⟨u, isAdditionalPatternUseful_eq cx _ _ n u h1, h2⟩
 
+/-- **Pattern conversion is compositional** (main_checker.rs:1360-1480): the abstract node of a variant
+pattern `Tag(p₁, …, pₙ)` with the right number of arguments is the constructor node `Tag` over the
+abstract nodes of `p₁ … pₙ` — for an enum with *any* number of variants (in particular a single one:
+no shortcut to a wildcard), whatever the `pᵢ` are. -/
+theorem variant_pattern_compositional (sig : Sig) (w : Bool) (t cls : Nat) (vs : List (Nat × List Nat))
+    (hs : sig t = .enum cls vs) (tag : Nat) (tys : List Nat) (hf : findVariant vs tag = some tys)
+    (ps : List SPat) (hl : ps.length = tys.length) :
+    (normalize sig w (.variant tag ps) (some t)).pat =
+      .struct (some ⟨cls, tag⟩) (List.zipWith (fun p ty => (normalize sig w p (some ty)).pat) ps tys) := by
+  simp [normalize, sigAt, hs, hf, normTuple_pats_eq sig w ps tys hl, hl, wilds]
+
+/-- The same for a tuple pattern on a struct: one column per field, each the abstract node of the
+element (main_checker.rs:1195-1265). -/
+theorem tuple_pattern_compositional (sig : Sig) (w : Bool) (t : Nat) (fs : List (Nat × Nat))
+    (hs : sig t = .struct fs) (ps : List SPat) (hl : ps.length = fs.length) :
+    (normalize sig w (.tuple ps) (some t)).pat =
+      .struct none (List.zipWith (fun p ty => (normalize sig w p (some ty)).pat) ps (fs.map (·.2))) := by
+  simp [normalize, sigAt, hs, normTuple_pats_eq sig w ps (fs.map (·.2)) (by simpa using hl), hl, wilds]
+
 /-- **Object patterns: a field's sub-pattern lands in the column of the field's declaration index**,
 in whatever order the fields are written; columns of fields that are not named hold `_`
 (main_checker.rs:1266-1345, `abstract_pattern_nodes[*field_order] = abstract_node`). -/
@@ -971,6 +990,10 @@ example : smatch sigEx (.object [1, 0] [.variant 0 [], .variant 0 []]) 3
 -- `{ b as Nil, a as None }` on `Pair(a: Opt, b: List)`: written second, `a`'s sub-pattern is column 0
 example : (normalize sigEx true (.object [1, 0] [.variant 0 [], .variant 0 []]) (some 3)).pat =
     .struct none [.struct (some ⟨0, 0⟩) [], .struct (some ⟨1, 0⟩) []] := by rfl
+-- a single-variant wrapper `class W(Only(Pair))` (type 4): `Only((None, _))` keeps its refutable payload
+example : (normalize (fun t => if t = 4 then .enum 2 [(0, [3])] else sigEx t) true
+    (.variant 0 [.tuple [.variant 0 [], .wild]]) (some 4)).pat =
+    .struct (some ⟨2, 0⟩) [.struct none [.struct (some ⟨0, 0⟩) [], .wild]] := by rfl
 -- fuel-free, both directions, on the example signature
 example : ∃ n res, (∀ m, n ≤ m → incompleteCounterexampleF cxEx m [pNone, pSome .wild] = some res) ∧
     (res = none ↔ ∀ v, hasTy sigEx v 1 = true → ∃ a ∈ [pNone, pSome .wild], pmatch a v = true) := by
